@@ -51,7 +51,7 @@ RULES = {
     VROOT: "distinct accepted graphs; non-trivial = at least one task is not a root",
 }
 
-_KINDS = "cgem"  # t0 run_command, t1 group, t2 run_experiment, t3 combine
+_KINDS = "cgemc"  # t0 run_command, t1 group, t2 run_experiment, t3 combine, t4 run_command
 
 
 def _main_blocks(tier):
@@ -353,16 +353,17 @@ def _worker(arg):
                     tally.sample(nm, _json(deps, n, 0))
         item += total
     for n in _dag_block_sizes(payload["tier"]):
-        dag_orders = G.labelled_dag_orders(n, n)
+        dags = G.labelled_dags(n)  # cached per process; sharded by DAG, orders expanded here
         first = (shard - item) % nshards
-        for k in range(first, len(dag_orders), nshards):
-            if env.wd.exhausted:
-                break
-            _eval_main(env, n, dag_orders[k], tally)
+        for k in range(first, len(dags), nshards):
+            for deps in G.listing_orders(dags[k]):
+                if env.wd.exhausted:
+                    break
+                _eval_main(env, n, deps, tally)
             if k == first:
                 for nm in (ACCEPT, VROOT):
-                    tally.sample(nm, _json(dag_orders[k], n, 0))
-        item += len(dag_orders)
+                    tally.sample(nm, _json(tuple(dags[k]), n, 0))
+        item += len(dags)
     for n, max_len in _dup_blocks(payload["tier"]):
         toks = [(j, a) for j in range(n) for a in (False, True)]
         seqs_all = G.sequences_upto(toks, max_len)
